@@ -190,7 +190,9 @@ def h_transaction(V, smi):
     """a transaction block that raises restores exactly the prior molecule and leaves it usable"""
     import chython
     m = chython.smiles(smi)
-    before = views(m)
+    before = views(chython.smiles(smi))
+    if bool(V.bool('cached_before')):
+        views(m)                       # either everything or nothing is cached when the block starts
     nums = sorted(m._atoms)
     a = V.choice('a', nums)
     c = V.choice('c', [-1, 1, 2])
@@ -246,6 +248,45 @@ def h_transaction_edits(V, smi):
     # and the object stays usable
     m.add_atom('C')
     check_coherent(V, m, ['edit after transaction'] + done)
+    V.observe('done', done)
+
+
+def h_deferred_edits(V, smi):
+    """two edits with the recalculation deferred (_skip_calculation=True, as the library's own builders do), then
+    fix_structure() / fix_stereo()"""
+    import chython
+    m = chython.smiles(smi)
+    views(m)
+    nums = sorted(m._atoms)
+    done = []
+    for s_ in range(2):
+        kind = V.choice(f'd{s_}_kind', ['add_atom', 'add_bond_new', 'add_bond_existing', 'delete_bond', 'delete_atom'])
+        cur = sorted(m._atoms)
+        try:
+            if kind == 'add_atom':
+                m.add_atom('O', _skip_calculation=True)
+            elif kind == 'add_bond_new':
+                k = m.add_atom('N', _skip_calculation=True)
+                m.add_bond(cur[-1], k, 1, _skip_calculation=True)
+            elif kind == 'add_bond_existing':
+                pair = next(((a, b) for a in cur for b in reversed(cur) if a != b and b not in m._bonds[a]), None)
+                if pair:
+                    m.add_bond(pair[0], pair[1], 1, _skip_calculation=True)
+            elif kind == 'delete_bond':
+                a = cur[0]
+                b = next(iter(m._bonds[a]), None)
+                if b is not None:
+                    m.delete_bond(a, b, _skip_calculation=True)
+            else:
+                m.delete_atom(cur[-1], _skip_calculation=True)
+        except (KeyError, ValueError, TypeError):
+            pass
+        done.append(kind)
+    if not m._atoms:
+        return
+    m.fix_structure()
+    m.fix_stereo()
+    check_coherent(V, m, ['deferred'] + done)
     V.observe('done', done)
 
 
@@ -374,7 +415,7 @@ def apply_edit_safe(V, m, tag, in_transaction=False):
 
 HARNESSES = {'edit': h_edit, 'transaction': h_transaction, 'independent': h_independent,
              'transaction_edits': h_transaction_edits, 'failed_then_edit': h_failed_then_edit,
-             'coordinates_independent': h_coordinates_independent}
+             'coordinates_independent': h_coordinates_independent, 'deferred_edits': h_deferred_edits}
 
 
 def finding_key(job, failure):
@@ -383,7 +424,7 @@ def finding_key(job, failure):
     kinds = [EDITS[mdl[x]] for x in ('e0_kind', 'e1_kind') if x in mdl]
     if kinds:
         k += ':' + '+'.join(kinds)
-    for x in ('t0_kind', 't1_kind', 'after_kind', 'what', 'how'):
+    for x in ('t0_kind', 't1_kind', 'after_kind', 'what', 'how', 'd0_kind', 'd1_kind'):
         if x in mdl:
             k += f':{x}={mdl[x]}'
     return k
@@ -399,6 +440,7 @@ def jobs(tier):
         J.append({'harness': 'transaction_edits', 'params': {'smi': s}, 'budget_s': 600, 'validate_every': 10, 'max_failures': 30})
         J.append({'harness': 'failed_then_edit', 'params': {'smi': s}, 'budget_s': 300, 'validate_every': 10, 'max_failures': 30})
         J.append({'harness': 'coordinates_independent', 'params': {'smi': s}, 'budget_s': 60})
+        J.append({'harness': 'deferred_edits', 'params': {'smi': s}, 'budget_s': 300, 'validate_every': 10, 'max_failures': 30})
         J.append({'harness': 'independent', 'params': {'smi': s}, 'budget_s': 1800, 'validate_every': 50, 'weight': 300})
     for s in (SEEDS_T[:8] if T else ['C1CC1C', 'F/C=C/Cl']):
         J.append({'harness': 'edit', 'params': {'smi': s, 'steps': 2}, 'budget_s': 3000, 'validate_every': 200,
